@@ -419,7 +419,7 @@ class HarnessA:
             t.state = "cancelled"
             self._in_reserve = None
             del self.env.event
-            self.violate("C01", "reserve_put-raised:" + type(e).__name__, f"reserve_put raised {e!r}", stop=True)
+            self.violate("C01", "reserve_put-raised:" + type(e).__name__ + ":" + norm_msg(e), f"reserve_put raised {e!r}", stop=True)
         self._in_reserve = None
         self._reserved(t, ev)
         if t.state != "granted":
